@@ -1,3 +1,5 @@
+import Goflow.Generated.Conversions
+import Goflow.Producer.SourceSnapshot
 import Goflow.Producer.Netflow
 import Goflow.Generated.NetflowCases
 import Goflow.Spec.FieldTable
@@ -139,5 +141,11 @@ theorem v5_record_eq_ref (p : V5.Packet) (recv : Nat) (exporter : Bytes) :
         exact h1 this.1
       simp [h1, this]
     · simp [hl]
+
+/-- the statements of the NetFlow v5 conversion in the source now are the ones `Goflow/Producer/Legacy.lean` was written from -/
+theorem legacy_source_matches :
+    Goflow.Generated.legacyRecordStmts = Goflow.Snapshot.legacyRecordStmts ∧
+    Goflow.Generated.legacyMessageStmts = Goflow.Snapshot.legacyMessageStmts := by
+  decide +kernel
 
 end Goflow.C08
